@@ -257,11 +257,9 @@ func (n *SwitchCaseNode) String() string {
 
 	buff.WriteString("case ")
 	buff.WriteString(n.Pattern.String())
-	buff.WriteRune('\n')
-
 	for _, stmt := range n.Body {
-		indent.IndentString(&buff, stmt.String(), 1)
 		buff.WriteRune('\n')
+		indent.IndentString(&buff, stmt.String(), 1)
 	}
 
 	return buff.String()
